@@ -1,14 +1,197 @@
 //! C01: vital chunks exactly once, in order, uncorrupted (explicit-state
 //! exploration of two real endpoints + exhaustive acceptance tables).
 
+use std::sync::Arc;
 use vp_core::serde_json::json;
 use vp_core::Run;
+use vp_net::ep::Ep;
+use vp_net::ep::Ev;
+use vp_net::ep::WPacket;
+use vp_net::pair::Pair;
+use vp_net::wire;
 use vp_core::Tier;
 use vp_net::model::Cfg;
 use vp_net::model::Variant;
 
+/// Datagram from the peer of `p.ep[side]` built by the independent builder
+/// with the token that endpoint expects.
+fn craft<E: Ep>(p: &Pair<E>, side: usize, control: Option<u8>, ack: u16, chunks: &[(u16, &[u8])]) -> Vec<u8> {
+    let v = p.ep[side].view(p.now);
+    let mut payload = Vec::new();
+    if let Some(c) = control {
+        payload.push(c);
+    }
+    for (seq, data) in chunks {
+        payload.extend_from_slice(&wire::chunk(E::V7, data, Some((*seq, false))));
+    }
+    if E::V7 {
+        let t = v.own_token.unwrap().unwrap();
+        let flags = if control.is_some() { wire::F7_CONTROL } else { 0 };
+        wire::build7(flags, ack, chunks.len() as u8, &payload, t, false).unwrap()
+    } else {
+        let t = v.own_token.unwrap();
+        let flags = if control.is_some() { wire::F6_CONTROL } else { 0 };
+        wire::build6(flags, ack, chunks.len() as u8, &payload, t, false).unwrap()
+    }
+}
+
+/// Table (i): acceptance rule. For every acknowledged value a and every
+/// incoming sequence s: delivered iff s == a+1 (mod 1024), and the ack moves
+/// iff delivered.
+fn table_accept<E: Ep>(run: &Arc<Run>, variant: Variant) {
+    let mut p = Pair::<E>::online(variant);
+    for a in 0..1024u16 {
+        // p.ep[1] has acknowledged `a` chunks
+        let va = p.ep[1].view(p.now);
+        assert_eq!(va.online.as_ref().unwrap().ack, a);
+        for s in 0..1024u16 {
+            run.add_evals(1);
+            let mut q = p.clone_pair();
+            let d = craft(&q, 1, None, 0, &[(s, b"probe")]);
+            let r = vp_core::catch(|| q.feed(1, &d));
+            let (ev, _) = match r {
+                Ok(x) => x,
+                Err(pn) => {
+                    run.violation(&format!("{}:{}", variant.name(), vp_core::panic_sig(&pn)), &pn, json!({"table": "accept", "acked": a, "incoming_sequence": s}));
+                    continue;
+                }
+            };
+            let delivered = ev.iter().filter(|e| matches!(e, Ev::Chunk(d, true) if d == b"probe")).count();
+            let ack_after = q.ep[1].view(q.now).online.as_ref().unwrap().ack;
+            let should = s == (a + 1) % 1024;
+            let ok = ev.len() == delivered
+                && delivered == should as usize
+                && ack_after == if should { s } else { a };
+            if !ok {
+                run.violation(
+                    &format!("{}:c01:acceptance-rule", variant.name()),
+                    &format!("acked {} incoming seq {}: delivered {} times, ack afterwards {}", a, s, delivered, ack_after),
+                    json!({"table": "accept", "variant": variant.name(), "acked": a, "incoming_sequence": s}),
+                );
+            } else {
+                let dist = (s + 1024 - a) % 1024;
+                let class = match dist {
+                    1 => "next",
+                    0 => "duplicate-of-last",
+                    2..=511 => "future",
+                    512 => "half-window",
+                    _ => "past",
+                };
+                run.class(&format!("accept:{}:{}", variant.name(), class), || json!({"acked": a, "incoming_sequence": s}));
+            }
+        }
+        // advance the receiver by one accepted chunk
+        let next = (a + 1) % 1024;
+        let d = craft(&p, 1, None, 0, &[(next, b"step")]);
+        let (ev, _) = p.feed(1, &d);
+        assert_eq!(ev.len(), 1, "table driver: step chunk not delivered");
+    }
+}
+
+/// Table (ii): sender ack processing. `n` unacked chunks after base sequence
+/// `b`; an incoming ack value k removes exactly the chunks up to k if k names a
+/// queued sequence, nothing otherwise; the resend afterwards carries exactly
+/// the remaining ones, oldest first.
+fn table_ack<E: Ep>(run: &Arc<Run>, variant: Variant) {
+    let bases: Vec<u16> = vec![0, 1, 510, 511, 512, 1020, 1021, 1022, 1023];
+    let mut p = Pair::<E>::online(variant);
+    let mut sent: u16 = 0;
+    for &b in &bases {
+        // bring the client's sequence to b with everything acknowledged
+        while sent < b {
+            let data = [b'x', sent as u8, (sent >> 8) as u8];
+            assert!(p.with(0, |e, cb| e.send(cb, &data, true)));
+            p.with(0, |e, cb| e.flush(cb));
+            p.net[1].clear();
+            sent += 1;
+            let d = craft(&p, 0, Some(0), sent % 1024, &[]);
+            p.feed(0, &d);
+        }
+        let v = p.ep[0].view(p.now);
+        let o = v.online.as_ref().unwrap();
+        assert_eq!(o.sequence, b % 1024);
+        assert!(o.resend_queue.is_empty());
+        for n in 1..=4u16 {
+            let mut q = p.clone_pair();
+            let mut queued: Vec<(u16, Vec<u8>)> = Vec::new();
+            for i in 0..n {
+                let data = vec![b'q', i as u8, n as u8, b as u8];
+                assert!(q.with(0, |e, cb| e.send(cb, &data, true)));
+                queued.push(((b + 1 + i) % 1024, data));
+            }
+            q.with(0, |e, cb| e.flush(cb));
+            q.net[1].clear();
+            for k in 0..1024u16 {
+                run.add_evals(1);
+                let mut r = q.clone_pair();
+                let d = craft(&r, 0, Some(0), k, &[]);
+                let res = vp_core::catch(|| {
+                    r.feed(0, &d);
+                    r.advance(1_000_000);
+                    r.emitted[0].clear();
+                    r.with(0, |e, cb| e.tick(cb));
+                    r.with(0, |e, cb| e.flush(cb));
+                });
+                if let Err(pn) = res {
+                    run.violation(&format!("{}:{}", variant.name(), vp_core::panic_sig(&pn)), &pn, json!({"table": "ack", "base": b, "unacked": n, "incoming_ack": k}));
+                    continue;
+                }
+                let expected: Vec<(u16, Vec<u8>)> = match queued.iter().position(|(s, _)| *s == k) {
+                    Some(i) => queued[i + 1..].to_vec(),
+                    None => queued.clone(),
+                };
+                let mut got: Vec<(u16, Vec<u8>)> = Vec::new();
+                let mode = if E::V7 { None } else { Some(variant == Variant::V6T) };
+                for d in &r.emitted[0] {
+                    if let Ok(WPacket::Chunks { chunks, .. }) = E::read(d, mode).packet {
+                        for c in chunks {
+                            if let Some((seq, _)) = c.vital {
+                                got.push((seq, c.data));
+                            }
+                        }
+                    }
+                }
+                if got != expected {
+                    run.violation(
+                        &format!("{}:c01:ack-processing", variant.name()),
+                        &format!(
+                            "base {} unacked {} incoming ack {}: resent sequences {:?}, expected {:?}",
+                            b, n, k,
+                            got.iter().map(|x| x.0).collect::<Vec<_>>(),
+                            expected.iter().map(|x| x.0).collect::<Vec<_>>()
+                        ),
+                        json!({"table": "ack", "variant": variant.name(), "base": b, "unacked": n, "incoming_ack": k}),
+                    );
+                } else {
+                    let class = if expected.len() == queued.len() { "acks-nothing" } else if expected.is_empty() { "acks-all" } else { "acks-some" };
+                    run.class(&format!("ack:{}:{}", variant.name(), class), || json!({"base": b, "unacked": n, "incoming_ack": k}));
+                }
+            }
+        }
+    }
+}
+
+fn tables(run: &Arc<Run>, v: Variant) {
+    match v {
+        Variant::V7 => {
+            table_accept::<libtw2_net::connection7::Connection>(run, v);
+            table_ack::<libtw2_net::connection7::Connection>(run, v);
+        }
+        _ => {
+            table_accept::<libtw2_net::connection::Connection>(run, v);
+            table_ack::<libtw2_net::connection::Connection>(run, v);
+        }
+    }
+}
+
 fn main() {
     let run = Run::new("C01", "model_checking");
+    std::thread::scope(|sc| {
+        for v in [Variant::V6T, Variant::V6N, Variant::V7] {
+            let run = &run;
+            sc.spawn(move || tables(run, v));
+        }
+    });
     let mut outcomes = Vec::new();
     let variants = [Variant::V6T, Variant::V6N, Variant::V7];
     let mut cfgs: Vec<Cfg> = Vec::new();
@@ -18,11 +201,17 @@ fn main() {
             Tier::Quick => {
                 cfgs.push(Cfg { vsends: [2, 0], drops: 1, dups: 1, ..base.clone() });
                 cfgs.push(Cfg { vsends: [1, 1], nsends: [1, 0], drops: 1, dups: 1, advances: 2, ..base.clone() });
+                // sequence wrap-around window 1023, 0, 1 and a start with unacked chunks
+                cfgs.push(Cfg { prefix_chunks: 1022, vsends: [2, 1], drops: 1, dups: 1, advances: 1, ..base.clone() });
+                cfgs.push(Cfg { prefix_chunks: 1, prefix_unacked: 2, vsends: [1, 0], drops: 1, dups: 1, advances: 2, ..base.clone() });
             }
             Tier::Thorough => {
                 cfgs.push(Cfg { vsends: [3, 0], drops: 1, dups: 1, ..base.clone() });
                 cfgs.push(Cfg { vsends: [2, 0], drops: 2, dups: 1, advances: 3, ..base.clone() });
                 cfgs.push(Cfg { vsends: [1, 2], nsends: [1, 0], drops: 1, dups: 1, advances: 2, ..base.clone() });
+                cfgs.push(Cfg { prefix_chunks: 1021, vsends: [3, 1], drops: 1, dups: 1, advances: 2, ..base.clone() });
+                cfgs.push(Cfg { prefix_chunks: 1, prefix_unacked: 3, vsends: [1, 1], drops: 2, dups: 1, advances: 2, ..base.clone() });
+                cfgs.push(Cfg { vsends: [2, 0], drops: 1, dups: 1, advances: 3, steps: vec![250_000], ..base.clone() });
             }
         }
     }
